@@ -530,6 +530,24 @@ Proof.
   - injection H as <-. apply contains_notIn. assumption.
 Qed.
 
+(* a greedily selected batch: pairwise different match strings, none of them excluded,
+   for every ranking / local optimiser of every iteration *)
+Lemma bo_batch_fresh size n : forall e oracles,
+  NoDup (map ms (bo_batch C M meqb ms size n e oracles)) /\
+  forall c, In c (bo_batch C M meqb ms size n e oracles) -> ~ In (ms c) e.
+Proof.
+  induction n as [|n IH]; intros e oracles; simpl; [split; [constructor | intros c []]|].
+  destruct oracles as [|[cands opt] rest]; [split; [constructor | intros c []]|].
+  destruct (excl_exhausted M size e); [split; [constructor | intros c []]|].
+  destruct (bo_select C M meqb ms e [] cands opt) as [c|] eqn:Eb; [|split; [constructor | intros c []]].
+  destruct (IH (excl_add e c) rest) as [Hnd Hex]. simpl. split.
+  - constructor; [|assumption]. intro Hin. apply in_map_iff in Hin as (c' & Hm & Hc').
+    apply (Hex c' Hc'). apply excl_add_In. left. assumption.
+  - intros c' [<-|Hc'].
+    + eapply bo_select_not_excluded; eauto.
+    + intro Hin. apply (Hex c' Hc'). apply excl_add_In. right. assumption.
+Qed.
+
 Lemma mb_random_loop_not_excluded e n : forall (r r' : rs_state) ds c ds',
   mb_random_loop C M meqb ms n r e ds = Ok (r', Some c, ds') -> ~ In (ms c) e.
 Proof.
